@@ -509,7 +509,7 @@ func c14(w *core.World, r *core.Report) {
 								isLoopHead = true
 							}
 						}
-						if !isLoopHead && core.InBody(get, g.If.Parent()) && g.If.Parent() == ap.Parent() {
+						if !isLoopHead && g.If.Parent() == ap.Parent() && core.OnCycle(g.If) {
 							bad = "a conditional append (" + w.InstrPos(g.If) + ")"
 						}
 					}
@@ -517,22 +517,24 @@ func c14(w *core.World, r *core.Report) {
 			}
 			// ... and what is appended is made of the elements of req.GetPath() itself, not of a filtered copy of it
 			if bad == "" {
-				for _, ap := range appends {
-					for _, el := range appendedElems(ap) {
-						for _, coll := range elementSources(el, 0) {
-							for _, o := range core.Origins(coll) {
-								oc, isCall := o.(*ssa.Call)
-								if isCall && core.CalleeIs(oc, "github.com/sdcio/sdc-protos/sdcpb.GetDataRequest.GetPath") {
-									continue
+				core.WithHost(get, func() {
+					for _, ap := range appends {
+						for _, el := range appendedElems(ap) {
+							for _, coll := range elementSources(el, 0) {
+								for _, o := range core.Origins(coll) {
+									oc, isCall := o.(*ssa.Call)
+									if isCall && core.CalleeIs(oc, "github.com/sdcio/sdc-protos/sdcpb.GetDataRequest.GetPath") {
+										continue
+									}
+									if _, isParam := o.(*ssa.Parameter); isParam {
+										continue // the request's list handed to a helper
+									}
+									bad = "a list derived from the request's paths (" + o.String() + ")"
 								}
-								if _, isParam := o.(*ssa.Parameter); isParam {
-									continue // the request's list handed to a helper
-								}
-								bad = "a list derived from the request's paths (" + o.String() + ")"
 							}
 						}
 					}
-				}
+				})
 			}
 			r.Check(bad == "", "ALL-PATHS", core.Site(get, "paths of %s", shortSrc(k)), w.InstrPos(c), "the list of paths to read passes through "+bad+": a requested path may be dropped")
 		}
